@@ -1778,3 +1778,66 @@ func ruleDuplicateDefinitionsAlwaysReported(c *core.Ctx) {
 		c.Undecided(rule, "anchor/duplicate test", 0, "no `if other, exists := <SymbolTable>[name]; exists` in front of a store under the same key found")
 	}
 }
+
+func init() {
+	reg("C10", ruleYamlAliasesNotFollowedByHand)
+}
+
+// ---------------------------------------------------------------------------------------------------------------
+// AY1: the hand-written YAML decoders never follow `yaml.Node.Alias`. yaml.v3 builds a cyclic node graph for a node
+// that aliases its own anchor (`payload: &p [int, *p]` is legal YAML) and protects only its own Decode against it; a
+// decoder that walks *yaml.Node trees itself and steps through `.Alias` recurses without end on such a document
+// (fatal stack overflow, exit 2) — unless it keeps a set of the nodes it is in, which none of yardl's decoders does.
+// ---------------------------------------------------------------------------------------------------------------
+func ruleYamlAliasesNotFollowedByHand(c *core.Ctx) {
+	const rule = "AY1"
+	c.Rule(rule, "pkg/dsl, pkg/packaging: no function that receives a *yaml.Node reads its `Alias` field (alias nodes are left to yaml.v3's own decoding, which guards against self-reference), unless it keeps a set of visited nodes", 10)
+	n := 0
+	for _, d := range c.AllDecls() {
+		p := c.DeclPkg(d)
+		if p == nil || d.Body == nil || c.IsTestFile(d.Pos()) || !(strings.HasSuffix(p.PkgPath, "/pkg/dsl") || strings.HasSuffix(p.PkgPath, "/pkg/packaging")) {
+			continue
+		}
+		info := p.TypesInfo
+		isYamlNode := func(t types.Type) bool {
+			nt := core.NamedOf(derefType(t))
+			return nt != nil && nt.Obj().Name() == "Node" && nt.Obj().Pkg() != nil && strings.HasPrefix(nt.Obj().Pkg().Path(), "gopkg.in/yaml")
+		}
+		takes := false
+		for _, f := range d.Type.Params.List {
+			if t := info.TypeOf(f.Type); t != nil && isYamlNode(t) {
+				takes = true
+			}
+		}
+		if !takes {
+			continue
+		}
+		n++
+		bad := token.NoPos
+		hasVisited := false
+		ast.Inspect(d.Body, func(m ast.Node) bool {
+			switch x := m.(type) {
+			case *ast.SelectorExpr:
+				if x.Sel.Name == "Alias" {
+					if t := info.TypeOf(x.X); t != nil && isYamlNode(t) {
+						bad = x.Pos()
+					}
+				}
+			case *ast.IndexExpr:
+				if mt, ok := derefType(info.TypeOf(x.X)).Underlying().(*types.Map); ok && isYamlNode(mt.Key()) {
+					hasVisited = true
+				}
+			}
+			return true
+		})
+		at := d.Pos()
+		if bad != token.NoPos {
+			at = bad
+		}
+		c.Check(bad == token.NoPos || hasVisited, rule, c.FuncName(d)+"/alias nodes", at, "alias nodes are not followed by hand",
+			"this decoder steps through `Alias` of a *yaml.Node without a set of visited nodes: for a node that aliases its own anchor (`x: &p [int, *p]`, legal YAML, a cyclic node graph in yaml.v3) the recursion never ends — `fatal error: stack overflow`, exit status 2, instead of a diagnostic")
+	}
+	if n == 0 {
+		c.Undecided(rule, "anchor/yaml decoders", 0, "no function with a *yaml.Node parameter found")
+	}
+}
